@@ -22,6 +22,23 @@ CHECKS = {
         'sequences judged on membership only.'),
 }
 
+A_NOTE = (
+    'Environment model of DESIGN.md 3.3 (jobs, command completions, clock) '
+    'is the only model; localhost/background jobs only; deadlines '
+    'abstracted to due/pending + firing order; bounded workflow catalogue.')
+A_TECH = ('explicit-state model checking of the real Scheduler: exhaustive '
+          'DFS over environment-event interleavings with canonical-state '
+          'deduplication and validated prefix replay')
+CHECKS['C01'] = (
+    'schedmc', 'model_checking', A_TECH, '6/C01',
+    'All interleavings of job/command events (every outcome assignment in '
+    'which finished tasks are complete) over a catalogue of graph shapes are'
+    ' explored on the real Scheduler main loop; at every job submission the '
+    'instance must be on-sequence and its trigger expression true over '
+    'outputs really produced by jobs; in every terminal state the set of '
+    'instances run equals the spawn-on-demand closure computed from the '
+    'graph term and the scheduler has shut itself down.', A_NOTE)
+
 NOT_BUILT_REASON = (
     'check not built yet in this session (designed in DESIGN.md section 6); '
     'no verdict is claimed')
